@@ -30,7 +30,7 @@ ASSUMPTIONS = [
 SHARDS = {"quick": 8, "thorough": 16}
 TIMEOUT = {"quick": 600, "thorough": 3600}
 MIN_CASES = {"quick": 50_000, "thorough": 250_000}
-REQUIRED_COUNTERS = ["outbound_decoded", "inbound_deliveries_checked", "corruptions_rejected", "real_transport_teardowns", "real_transport_idle_teardowns", "inbound_reads_over_64k", "outbound_pipelined_decoded"]
+REQUIRED_COUNTERS = ["outbound_decoded", "inbound_deliveries_checked", "corruptions_rejected", "real_transport_teardowns", "real_transport_idle_teardowns", "inbound_reads_over_64k", "outbound_pipelined_decoded", "request_level_schedules"]
 
 OUT_LENGTHS = [0, 1, 2, 1023, 1024, 1025, 2047, 2048, 2049, 3071, 3072, 3073, 4096, 5000, 10240, 10241]
 OK_RESPONSE = b"HTTP/1.1 204 No Content\r\n\r\n"
@@ -485,6 +485,27 @@ async def _main(ctx, only=None) -> None:
     await run_inbound_small(ctx)
     await run_corruption(ctx)
     await run_real_transport(ctx)
+    await run_request_level(ctx)
+
+
+# callers that give up while QUEUED for their turn on the session (Q), while in flight (C), timers (T), time passing (W):
+# whatever the callers do, the frames that reach the accessory authenticate at consecutive counters
+REQUEST_LEVEL_SCHEDULES = ["RRQARA", "RRRQQARARA", "RRQAWRAEA", "RRQRAAA", "RRCRA", "RRRQARQARA", "RQRA", "RRQTRA", "RRAQRAFRA", "RRQQRRAAQRA"]
+
+
+async def run_request_level(ctx) -> None:
+    """The session as HomeKitConnection.request drives it (real connection, simulated accessory with the reference decoder):
+    the scenario machinery and its ground-truth oracles are C08's; what is judged HERE is the outbound frame stream -
+    key request-stream-rejected-by-accessory."""
+    from vf.props import c08
+
+    for k, schedule in enumerate(REQUEST_LEVEL_SCHEDULES):
+        for api in ("connection", "pairing"):
+            if not ctx.mine(k):
+                continue
+            ctx.case("request-level", schedule, api, sample={"part": "request-level", "schedule": schedule, "api": api}, kind="request-level")
+            await c08.Scenario(ctx, schedule, api, ("C05", k, api)).run()
+            ctx.count("request_level_schedules")
 
 
 def run(ctx) -> None:
